@@ -13,7 +13,26 @@ Init == l = 1
 RecOf(c) == [head |-> c.rec.head, lines |-> c.rec.lines, qual |-> c.rec.qual]
 SameRec(a, b) == a.head = b.head /\ a.lines = b.lines /\ a.qual = b.qual
 
-Viol(r) ==
+\* Long runs (several thousand records, batches of several hundred): the input is not kept in the trace and the
+\* chain is not evaluated; only the counters are judged. ncalls counts the consumer calls, nrec the records a
+\* sequential pre-pass read (set_sizes).
+RECURSIVE SumSeq(_, _)
+SumSeq(q, i) == IF i > Len(q) THEN 0 ELSE q[i] + SumSeq(q, i + 1)
+BigViol(r) ==
+  LET res == r.result
+      conj == <<
+        <<"C16", "more_than_queue_len_plus_one_data_sets", r.nsetinit <= r.Q + 1>>,
+        <<"C16", "record_outputs_not_reused", r.nrecinit <= (r.Q + 1) * Max({r.set_sizes[i] : i \in 1..Len(r.set_sizes)} \cup {0})>>,
+        <<"C07", "not_every_record_delivered", res.k # "none" \/ r.ncalls = SumSeq(r.set_sizes, 1)>>,
+        <<"C07", "output_not_computed_for_this_record", r.nbad = 0>>,
+        <<"C15", "panic", res.k # "panic">>,
+        <<"C08", "call_did_not_return", res.k \notin {"hang", "panic"}>>,
+        <<"C08", "job_still_processing_after_return", res.k \in {"hang", "panic"} \/ r.jobs_started = r.jobs_finished>>,
+        <<"C08", "thread_active_after_return", res.k \in {"hang", "panic"} \/ r.late_events = 0>>
+      >>
+  IN {<<conj[i][1], conj[i][2]>> : i \in {i \in 1..Len(conj) : ~conj[i][3]}}
+
+SmallViol(r) ==
   LET chain == IF r.fmt = "fasta" THEN FaChain(r.input) ELSE FqChain(r.input)
       N == Len(chain)
       \* records sequential reading delivers before anything else happens
@@ -69,6 +88,7 @@ Viol(r) ==
         <<"C07", "record_delivered_more_than_once", ~genuine \/ atMostOnce>>,
         <<"C07", "output_not_computed_for_this_record", paired>>,
         <<"C07", "not_every_record_delivered", ~(res.k = "none" /\ drains /\ ~anyInitFault /\ ~mustFail /\ tail.errs = {}) \/ allDelivered>>,
+        <<"C07", "waiting_consumer_never_served", ~(res.k = "hang" /\ ~anyInitFault /\ (drains \/ n < r.stop_after) /\ n < K)>>,
         <<"C07", "single_worker_file_order", ~(r.NW = 1 /\ genuine) \/ inOrder>>,
         <<"C07", "records_of_a_set_in_file_order", ~(isInit \/ r.api = "read_parallel") \/ ~genuine \/ \A t \in starts : segOK(t)>>,
         <<"C07", "early_return_value", res.k # "some" \/ (r.stop_after > 0 /\ (r.api = "read_parallel" \/ n = r.stop_after))>>,
@@ -86,6 +106,8 @@ Viol(r) ==
         <<"C08", "thread_active_after_return", res.k \in {"hang", "panic"} \/ r.late_events = 0>>
       >>
   IN {<<conj[i][1], conj[i][2]>> : i \in {i \in 1..Len(conj) : ~conj[i][3]}}
+
+Viol(r) == IF r.big THEN BigViol(r) ELSE SmallViol(r)
 
 Next == /\ l <= Len(Rec)
         /\ LET v == Viol(Rec[l]) IN
